@@ -132,12 +132,16 @@ DeletePolicy(p) ==
   /\ p \in Policy
   /\ IF p \in view.prow THEN Upd([view EXCEPT !.prow = @ \ {p}], TRUE, "delete_policy", "", p, "")
      ELSE ErrOps /\ p \in view.pnode /\ Upd(view, TRUE, "delete_policy", "", p, "")
+\* refused variants are kept to one representative each (unknown subject with an existing
+\* role; missing role with the first subject) so that random walks stay productive
+ErrSubject == CHOOSE s \in Subject : TRUE
 Assign(r, s) ==
   /\ r \in AllRole /\ s \in Subject \cup {Ghost}
   /\ IF r \in view.rnode /\ s \in Known
      THEN /\ (<<r, s>> \in view.asg => ErrOps)
           /\ Upd([view EXCEPT !.asg = @ \cup {<<r, s>>}], TRUE, "assign", r, "", s)
-     ELSE ErrOps /\ Upd(view, FALSE, "assign", r, "", s)
+     ELSE /\ ErrOps /\ (r \in view.rnode \/ s = ErrSubject)
+          /\ Upd(view, FALSE, "assign", r, "", s)
 Unassign(r, s) ==
   /\ r \in AllRole /\ s \in Subject
   /\ (<<r, s>> \notin view.asg => ErrOps /\ r \in view.rnode)
